@@ -1,6 +1,7 @@
 (* C30 — proofs about Model/Strategy.v.
-   Part 1: the per-attempt iterator (each distinct backend once, termination; refutations for the
-           implementation's removal loop).
+   Part 1: the per-attempt iterator (each distinct backend once, termination), proved for the
+           spec removal step and transferred to today's code (impl_remove = spec_remove, fix
+           426c657); refutations for the PRE-FIX removal loop (old_remove).
    Part 2: the order each strategy dictates.
    Part 3 (Proofs/C30_Count.v): connection counts under every schedule. *)
 From Coq Require Import List NArith Bool Arith Lia.
@@ -137,33 +138,72 @@ Proof.
     specialize (IH _ _ _ _ _ Ed). pose proof (spec_remove_shorter b l Hb). simpl. lia.
 Qed.
 
-(* ---------- the implementation's loop: both recorded findings ---------- *)
+(* ---------- the PRE-FIX loop (before 426c657): both recorded, now fixed, findings ---------- *)
 
 Definition ex_aliases : list bytes :=
   [ [69;120;97;109;112;108;101;46;99;111;109];                          (* Example.com *)
     [101;120;97;109;112;108;101;46;99;111;109;58;50;53;53;54;53];       (* example.com:25565 *)
     [69;88;65;77;80;76;69;46;67;79;77;58;50;53;53;54;53] ].             (* EXAMPLE.COM:25565 *)
 
-Lemma each_distinct_once_refuted :
+Lemma old_each_distinct_once_refuted :
   has_alias ex_aliases = true
-  /\ fst (fst (drain impl_remove 0 [] 5 ex_aliases init_state)) = ex_aliases
+  /\ fst (fst (drain old_remove 0 [] 5 ex_aliases init_state)) = ex_aliases
   /\ map canon ex_aliases = repeat (canon (hd [] ex_aliases)) 3
   /\ fst (fst (drain spec_remove 0 [] 5 ex_aliases init_state)) = [hd [] ex_aliases].
 Proof. vm_compute. repeat split; reflexivity. Qed.
 
 Definition ex_unparsable : bytes := [97; 58; 98; 46; 105; 110; 116].    (* a:b.int *)
 
-(* an address that netutil.Parse rejects is yielded on every call, for ever *)
-Lemma attempt_never_ends_refuted : forall fuel s,
-  drain impl_remove 0 [] fuel [ex_unparsable] s = (repeat ex_unparsable fuel, false, s).
+(* pre-fix: an address that netutil.Parse rejects was yielded on every call, for ever *)
+Lemma old_attempt_never_ends_refuted : forall fuel s,
+  drain old_remove 0 [] fuel [ex_unparsable] s = (repeat ex_unparsable fuel, false, s).
 Proof.
   induction fuel as [|f IH]; intro s; [reflexivity|].
-  change (drain impl_remove 0 [] (S f) [ex_unparsable] s)
-    with (let '(ys, ended, s2) := drain impl_remove 0 [] f (impl_remove ex_unparsable [ex_unparsable]) s in
+  change (drain old_remove 0 [] (S f) [ex_unparsable] s)
+    with (let '(ys, ended, s2) := drain old_remove 0 [] f (old_remove ex_unparsable [ex_unparsable]) s in
           (ex_unparsable :: ys, ended, s2)).
-  change (impl_remove ex_unparsable [ex_unparsable]) with [ex_unparsable].
+  change (old_remove ex_unparsable [ex_unparsable]) with [ex_unparsable].
   rewrite IH. reflexivity.
 Qed.
+
+(* ---------- today's loop is the spec's ---------- *)
+
+Theorem impl_remove_is_spec : forall sel l, impl_remove sel l = spec_remove sel l.
+Proof.
+  intros sel l. unfold spec_remove. induction l as [|b r IH]; [reflexivity|]. simpl.
+  destruct (beq_bytes (canon b) (canon sel)); simpl; now rewrite IH.
+Qed.
+
+Lemma drain_ext r1 r2 : (forall b l, r1 b l = r2 b l) ->
+  forall st rh fuel l s, drain r1 st rh fuel l s = drain r2 st rh fuel l s.
+Proof.
+  intros Hr st rh fuel. induction fuel as [|f IH]; intros l s; [reflexivity|].
+  destruct l as [|x r]; [reflexivity|]. simpl.
+  destruct (select st rh (x :: r) s) as [b s1]. now rewrite Hr, IH.
+Qed.
+
+Theorem drain_impl_is_spec : forall st rh fuel l s,
+  drain impl_remove st rh fuel l s = drain spec_remove st rh fuel l s.
+Proof. apply drain_ext. exact impl_remove_is_spec. Qed.
+
+Theorem each_distinct_once_impl : forall st rh fuel l s ys ended s',
+  drain impl_remove st rh fuel l s = (ys, ended, s') ->
+  NoDup (map canon ys)
+  /\ (forall y, In y ys -> In y l)
+  /\ (ended = true -> forall b, In b l -> In (canon b) (map canon ys))
+  /\ ((length l < fuel)%nat -> ended = true).
+Proof. intros st rh fuel l s ys ended s' H. rewrite drain_impl_is_spec in H. eapply each_distinct_once; eauto. Qed.
+
+Theorem attempt_bounded_impl : forall st rh fuel l s ys ended s',
+  drain impl_remove st rh fuel l s = (ys, ended, s') -> (length ys <= length l)%nat.
+Proof. intros st rh fuel l s ys ended s' H. rewrite drain_impl_is_spec in H. eapply attempt_bounded; eauto. Qed.
+
+(* today's code on the inputs of the fixed findings: one dial for the three spellings; the
+   unparsable address is dialled once and the attempt ends *)
+Lemma impl_on_former_probes :
+  fst (fst (drain impl_remove 0 [] 5 ex_aliases init_state)) = [hd [] ex_aliases]
+  /\ drain impl_remove 0 [] 5 [ex_unparsable] init_state = ([ex_unparsable], true, init_state).
+Proof. vm_compute. split; reflexivity. Qed.
 
 (* ---------- order: sequential ---------- *)
 
@@ -193,6 +233,10 @@ Proof.
   destruct (drain spec_remove 0 rh f (spec_remove b r) s) as [[ys e] s2].
   simpl in *. now rewrite IH.
 Qed.
+
+Theorem order_sequential_impl : forall rh fuel l s,
+  fst (fst (drain impl_remove 0 rh fuel l s)) = dedup fuel l.
+Proof. intros. rewrite drain_impl_is_spec. apply order_sequential. Qed.
 
 (* without aliases the sequential attempt is the configured list itself *)
 Lemma dedup_no_alias : forall l fuel, NoDup (map canon l) -> (length l <= fuel)%nat -> dedup fuel l = l.
